@@ -31,7 +31,7 @@ FAMILIES = {
     "same-uid-vertices": ("Vertex", {"uid": "a.uid"}),
     "universes-as-vertices": ("Universe", {}),
 }
-SCHEDULES = ("off", "on", "on/off-around-mutation", "on-after-mutation", "unpickled-on")
+SCHEDULES = ("off", "on", "on/off-around-mutation", "on-after-mutation", "unpickled-on", "unpickled-off")
 
 
 class GM(struct.Model):
@@ -497,7 +497,7 @@ def unpickled_copy(h, g):
                 memo[id(v)] = n
             keep.append(v)
             n.items = [cp(x) for x in v.items]
-            return n
+            return carry(v, n)
         if isinstance(v, DictV):
             if id(v) in memo:
                 return memo[id(v)]
@@ -506,12 +506,17 @@ def unpickled_copy(h, g):
             memo[id(v)] = n
             keep.append(v)
             n.pairs = [[cp(k), cp(x)] for k, x in v.pairs]
-            return n
+            return carry(v, n)
         if isinstance(v, SetV):
             n = copy.copy(v)
             n.items = [cp(x) for x in v.items]
-            return n
+            return carry(v, n)
         return v          # atoms: numbers, strings, tokens, classes and functions (pickled by reference)
+
+    def carry(v, n):
+        if getattr(v, "ucls", None) is not None:
+            n.ucls, n.ufields = v.ucls, {k: cp(x) for k, x in v.ufields.items()}
+        return n
 
     keep = []              # keeps the originals alive while id()-keyed memo entries exist
     newO = {k: cp(o) for k, o in g.O.items()}
@@ -530,6 +535,8 @@ def plan(thorough):
     out = []
     for fam in FAMILIES:
         for sch in SCHEDULES:
+            if sch == "unpickled-off":
+                continue        # only on request (C10)
             if fam == "plain" or thorough or sch in ("on", "off"):
                 out.append((fam, sch))
     return out
@@ -584,7 +591,7 @@ _WORLD = {}
 
 def _job(job):
     from sa.src import Source
-    root, overlay, prop, rule, fam, sch, extra, mut_kinds, quick_subset, first = job
+    root, overlay, prop, rule, fam, sch, extra, mut_kinds, quick_subset, first, chunk = job
     key = (root, tuple(sorted(overlay.items())), extra)
     if _WORLD.get("key") != key:
         src = Source(root, overlay)
@@ -600,7 +607,7 @@ def _job(job):
         _WORLD.update(key=key, h=h, xo=xo)
     col = _Collector()
     try:
-        n = run_one(_WORLD["h"], col, prop, rule, fam, sch, _WORLD["xo"], mut_kinds, quick_subset, first)
+        n = run_one(_WORLD["h"], col, prop, rule, fam, sch, _WORLD["xo"], mut_kinds, quick_subset, first, chunk)
     except Unknown as u:
         col.undecide(f"history engine, {fam} / {sch}: {u}")
         n = 0
@@ -613,20 +620,28 @@ def run(ctx, res, prop, rule="HISTORY", extra=None, families=None, thorough=None
     thorough = ctx.thorough if thorough is None else thorough
     root, overlay = str(ctx.src.root), dict(ctx.src.overlay)
     jobs = []
-    for fam, sch in plan(thorough):
+    todo = plan(thorough)
+    if schedules:
+        todo = [(fam, sch) for fam in FAMILIES for sch in schedules if thorough or fam == "plain" or sch != "unpickled-off"]
+    for fam, sch in todo:
         if families and fam not in families or schedules and sch not in schedules:
             continue
-        jobs.append((root, overlay, prop, rule, fam, sch, extra, mut_kinds, (not thorough) and fam != "plain", None))
+        jobs.append((root, overlay, prop, rule, fam, sch, extra, mut_kinds, (not thorough) and fam != "plain", None, None))
     if thorough and not mut_kinds:
         # two mutations in a row (first one out of a representative per kind), observed after the second
         for sch in ("on", "on/off-around-mutation"):
             if schedules and sch not in schedules:
                 continue
             for first in range(N_FIRST):
-                jobs.append((root, overlay, prop, rule, "plain", sch, extra, None, False, first))
+                jobs.append((root, overlay, prop, rule, "plain", sch, extra, None, False, first, None))
     import multiprocessing as mp
     import os
-    nproc = min(len(jobs), os.cpu_count() or 1, 16)
+    cpus = min(os.cpu_count() or 1, 16)
+    if len(jobs) < cpus and not mp.current_process().daemon:
+        # few (family, schedule) jobs: split each one's mutators into interleaved chunks so that every core has work
+        k = max(1, cpus // max(1, len(jobs)))
+        jobs = [j[:10] + ((i, k),) for j in jobs for i in range(k)]
+    nproc = min(len(jobs), cpus)
     if nproc > 1 and not os.environ.get("VERIF_HIST_SERIAL") and not mp.current_process().daemon:
         with mp.get_context("fork").Pool(nproc) as pool:
             parts = pool.map(_job, jobs, chunksize=1)
@@ -646,7 +661,7 @@ def run(ctx, res, prop, rule="HISTORY", extra=None, families=None, thorough=None
             else:
                 res.note(*args)
     res.rule(rule, n)
-    res.extra.setdefault("histories", {})[rule] = {"jobs": [f"{j[4]} / {j[5]}" for j in jobs], "comparisons": n}
+    res.extra.setdefault("histories", {})[rule] = {"jobs": sorted({f"{j[4]} / {j[5]}" for j in jobs}), "processes": nproc, "comparisons": n}
     return n
 
 
@@ -662,9 +677,12 @@ def representatives(MUT):
     return keep
 
 
-def run_one(h, res, prop, rule, fam, sch, extra_observers, mut_kinds, quick_subset, first=None):
+def run_one(h, res, prop, rule, fam, sch, extra_observers, mut_kinds, quick_subset, first=None, chunk=None):
     C = c04.consts(h)
     OBS = observers(h, C) + (extra_observers(h, C) if extra_observers else [])
+    if prop == "C10":
+        for o in OBS:
+            o.props = tuple(o.props) + ("C10",)      # the copy answers *every* query like the original's model
     mine = [o for o in OBS if prop in o.props] if prop != "C13" else list(OBS)      # C13: every read-only operation runs between two readings of the state
     warm = [o for o in OBS if o.name.endswith((".links", ".universes", ".vertices", "vertices")) or o.name.startswith("neighbors(")]
     state = [o for o in OBS if o.name.endswith((".links", ".universes", ".vertices", "vertices")) or o.name.startswith("I1 ")]
@@ -708,7 +726,9 @@ def run_one(h, res, prop, rule, fam, sch, extra_observers, mut_kinds, quick_subs
             return 0
         m1 = reps[first]
     todo = []
-    for mu in ([None] if m1 is None else []) + MUT:
+    if chunk is not None:
+        MUT = MUT[chunk[0]::chunk[1]]
+    for mu in ([None] if m1 is None and (chunk is None or chunk[0] == 0) else []) + MUT:
         if mu is not None and mut_kinds and not any(mu.kind.startswith(k) for k in mut_kinds):
             continue
         todo.append((mu, "insertion"))
@@ -718,13 +738,13 @@ def run_one(h, res, prop, rule, fam, sch, extra_observers, mut_kinds, quick_subs
         h.w.set_order = order
         try:
             g = G(h, fam)
-            flag(h, sch in ("on", "on/off-around-mutation"))
-            if sch == "unpickled-on":
+            flag(h, sch in ("on", "on/off-around-mutation", "unpickled-off"))
+            if sch.startswith("unpickled"):
                 observe(g, "warm", (fam, sch, None), check=False)
                 unpickled_copy(h, g)
                 h.w.restore()
                 h.settle()
-                flag(h, True)
+                flag(h, sch == "unpickled-on")
             observe(g, "before", (fam, sch, None), check=(mu is None))
             if mu is None:
                 continue
@@ -801,7 +821,8 @@ def frozen(h, g, res, queries, state, info, rule):
 
 def describe(fam, sch, mu):
     s = {"off": "caching off", "on": "caching on", "on/off-around-mutation": "caching on, switched off around the mutation", "on-after-mutation": "caching switched on after the mutation",
-         "unpickled-on": "graph copied through the pickle protocol into fresh class-level state, caching on"}[sch]
+         "unpickled-on": "graph copied through the pickle protocol into fresh class-level state, caching on",
+         "unpickled-off": "graph built with caching on and copied through the pickle protocol into fresh class-level state, caching off"}[sch]
     return f"{fam} graph; {s}; every accessor and query once; {mu.label if mu else '(no mutation)'}; query"
 
 
